@@ -141,15 +141,25 @@ pub fn vx_assert_parent(parent: Option<RevisionId>, current: RevisionId) require
 //@          ensures r.id == id, r.blob == blob, r.state == state, r.parent == parent, r.author == author,
 //@              r.verdicts@ == Map::<PublicKey, Verdict>::empty().insert(author.id.0, Verdict::Accept(signature))
 //@      { unimplemented!() }
-//@      /// stand-in for Revision::reject (uses an iterator count): arbitrary effect on this revision except its identity
+//@      /// stand-in for `self.rejected().count() > self.delegates().len() - self.majority()` (iterator count): result arbitrary
 //@      #[verifier::external_body]
-//@      fn reject(&mut self, key: PublicKey) -> (r: Result<(), ApplyError>) ensures final(self).id == old(self).id { unimplemented!() }
+//@      fn vx_cannot_be_accepted(&self) -> bool { unimplemented!() }
+//@    fn reject
+//@      ret r
+//@      body_sub self\.rejected\(\)\.count\(\) > self\.delegates\(\)\.len\(\) - self\.majority\(\) => self.vx_cannot_be_accepted()
+//@      ensures
+//@        # C04: a recorded verdict is never overwritten -- an acceptance (whose signature keeps counting as a vote in `heads`)
+//@        # cannot be turned into a rejection
+//@        r is Ok ==> !old(self).verdicts@.contains_key(key) && final(self).verdicts@ == old(self).verdicts@.insert(key, Verdict::Reject) //[C04]
+//@        final(self).id == old(self).id && final(self).blob == old(self).blob && final(self).parent == old(self).parent
+//@      head
+//@        proof { ids_lawful(); }
 //@    fn accept
 //@      ret r
 //@      ensures
 //@        # the vote is recorded only with a valid signature of a delegate of the CURRENT document over the new blob
 //@        r is Ok ==> delegate(current.doc, Did(author)) && sig_ok(author, old(self).blob, signature) && final(self).accepted_by(author)
-//@        r is Ok ==> !old(self).verdicts@.contains_key(author)
+//@        r is Ok ==> !old(self).verdicts@.contains_key(author) && final(self).verdicts@ == old(self).verdicts@.insert(author, Verdict::Accept(signature))
 //@        final(self).id == old(self).id && final(self).blob == old(self).blob && final(self).state == old(self).state && final(self).parent == old(self).parent
 //@      head
 //@        proof { ids_lawful(); }
@@ -183,6 +193,12 @@ pub fn vx_assert_parent(parent: Option<RevisionId>, current: RevisionId) require
 //@          &&& forall|id: RevisionId| self.revisions@.contains_key(id) && (#[trigger] self.revisions@[id]) is Some && self.revisions@[id]->Some_0.state == State::Active
 //@                  ==> self.revisions@[id]->Some_0.parent == Some(self.current)
 //@      }
+//@      /// C04 ("have each recorded a valid signature"): every vote that `adopt` counts -- a head pointing at a revision -- is
+//@      /// backed by a valid signature of that key over that revision's blob, recorded in the revision's verdicts
+//@      pub open spec fn votes_backed(self) -> bool {
+//@          forall|d: Did| #[trigger] self.heads@.contains_key(d) ==> self.revisions@.contains_key(self.heads@[d])
+//@              && (self.revisions@[self.heads@[d]] matches Some(r) ==> r.accepted_by(d.0))
+//@      }
 //@      /// C04: some delegate of document `doc` has recorded a valid signature on revision `id`
 //@      pub open spec fn voted(self, doc: Doc, id: RevisionId) -> bool {
 //@          self.revisions@.contains_key(id) && self.revisions@[id] is Some
@@ -206,6 +222,7 @@ pub fn vx_assert_parent(parent: Option<RevisionId>, current: RevisionId) require
 //@              final(self).heads == old(self).heads,
 //@              final(self).revisions@.dom() == old(self).revisions@.dom(),
 //@              forall|i: RevisionId| old(self).revisions@.contains_key(i) && (#[trigger] old(self).revisions@[i]) is Some ==> final(self).revisions@[i] is Some && final(self).revisions@[i]->Some_0.verdicts == old(self).revisions@[i]->Some_0.verdicts && final(self).revisions@[i]->Some_0.blob == old(self).revisions@[i]->Some_0.blob,
+//@              forall|i: RevisionId| old(self).revisions@.contains_key(i) && (#[trigger] old(self).revisions@[i]) is None ==> final(self).revisions@[i] is None,
 //@      { unimplemented!() }
 //@      /// stand-in for Identity::new (iterator adapters, BTreeMap::from_iter): ASSUMED (by inspection of its struct literal) to
 //@      /// take the identifier from the revision's blob and to make the revision root and current
@@ -218,6 +235,7 @@ pub fn vx_assert_parent(parent: Option<RevisionId>, current: RevisionId) require
 //@      body_sub assert_eq!\(revision\.parent, Some\(current\.id\)\); => vx_assert_parent(revision.parent, current.id);
 //@      body_sub doc == parent\.doc => vx_doc_eq(&doc, &parent.doc)
 //@      hint 1 self\.adopt\(id\);
+//@        assert(self.votes_backed());
 //@        assert(self.revisions@.contains_key(id) && self.revisions@[id] is Some);
 //@        assert(self.revisions@[id]->Some_0.accepted_by(author));
 //@        assert(self.heads@.contains_key(Did(author)) && self.heads@[Did(author)] == id);
@@ -232,6 +250,7 @@ pub fn vx_assert_parent(parent: Option<RevisionId>, current: RevisionId) require
 //@        assert(self.cur().doc == current.doc);
 //@        assert(self.voted(self.cur().doc, id));
 //@      hint 1 \}\s*Action::RevisionReject \{ revision \} =>
+//@        assert(self.votes_backed());
 //@        assert(self.revisions@.contains_key(id) && self.revisions@[id] is Some);
 //@        assert(self.revisions@[id]->Some_0.accepted_by(author));
 //@        assert(self.heads@.contains_key(Did(author)) && self.heads@[Did(author)] == id);
@@ -243,6 +262,7 @@ pub fn vx_assert_parent(parent: Option<RevisionId>, current: RevisionId) require
 //@        assert(self.current == old(self).current || self.voted(old(self).cur().doc, self.current));
 //@      requires
 //@        old(self).wf()
+//@        old(self).votes_backed()
 //@        action is Revision ==> !old(self).revisions@.contains_key(entry)
 //@      ensures
 //@        # actions by keys that are not delegates of the current document never change the identity
@@ -252,6 +272,8 @@ pub fn vx_assert_parent(parent: Option<RevisionId>, current: RevisionId) require
 //@        (action matches Action::RevisionEdit { revision, .. } && revision == old(self).current) ==> r is Err
 //@        # the current revision changes only to one on which a delegate of the replaced document recorded a valid signature
 //@        r is Ok ==> final(self).current == old(self).current || final(self).voted(old(self).cur().doc, final(self).current)
+//@        # every counted vote stays backed by a recorded valid signature
+//@        r is Ok ==> final(self).votes_backed() //[C04]
 //@      head
 //@        proof { ids_lawful(); }
 //@  impl store::Cob for Identity
